@@ -27,7 +27,8 @@ ASSUMPTIONS = ["presets as documented in the docstring table of get_preset_const
                "for invalid inputs outside the listed classes only 'state unchanged' is required, not the exception type"]
 SELFTESTS = [R.selftest, refsmiles.selftest]
 
-PROBES = ["[Xe-2][Branch1][C][F][Branch1][C][F][Branch1][C][F][Branch1][C][F][F]", "[C][#C][=N][#S][=P][O]", "[N+1][=C][Fe][#C][Cl][C]"]
+PROBES = ["[Xe-2][Branch1][C][F][Branch1][C][F][Branch1][C][F][Branch1][C][F][F]", "[C][#C][=N][#S][=P][O]", "[N+1][=C][Fe][#C][Cl][C]",
+          "[Si][=Branch1][C][=O][#Os][=Ge+2][Na]"]
 
 
 class State:
@@ -174,6 +175,21 @@ def apply_step(state, step, info):
         return _invariants(state, "after_set_default")
     if op == "set_custom":
         arg = dict(step["table"])
+        kind = step.get("container", "dict")
+        if kind == "defaultdict":
+            import collections
+            arg = collections.defaultdict(int, arg)
+        elif kind == "defaultdict7":
+            import collections
+            arg = collections.defaultdict(lambda: 7, arg)
+        elif kind == "Counter":
+            import collections
+            arg = collections.Counter(arg)
+        elif kind == "OrderedDict":
+            import collections
+            arg = collections.OrderedDict(sorted(arg.items(), reverse=True))
+        if kind != "dict":
+            cl.add("table_passed_as_" + kind)
         r = call(sf.set_semantic_constraints, arg)
         if r[0] != "ok":
             if R.table_is_documented(step["table"]):
@@ -345,8 +361,9 @@ class Machine(S.HistoryMachine):
 
     @rule(blob=BLOB)
     def set_custom(self, blob):
-        t = T.gen_valid_table(Chooser(blob), allow_preset_name=False)
-        self.do(dict(op="set_custom", table=t))
+        ch = Chooser(blob)
+        t = T.gen_valid_table(ch, allow_preset_name=False)
+        self.do(dict(op="set_custom", table=t, container=ch.weighted([(6, "dict"), (1, "defaultdict"), (1, "defaultdict7"), (1, "Counter"), (1, "OrderedDict")])))
 
     @rule(blob=BLOB)
     def set_invalid(self, blob):
